@@ -156,25 +156,24 @@ TRefused ==
     /\ Line.ev = "RollActivate" => RollActivateRefused(Args.c)
     /\ UNCHANGED vars /\ Projected(Line.abs)
 
-\* one background task, as named by the real task queue
-TaskName == Line.task
+\* one background task, as named by the real task queue (Line.tk is the
+\* task's kind and CA parsed from its name)
 TStep ==
     /\ IsEvent("Step")
-    /\ \/ \E c \in AllCA :
-            /\ TaskName = "sync_repo_" \o c
-            /\ (SyncRepo(c) \/ (SyncDropped(c) /\ SR(c) \notin tasks'))
-       \/ \E c \in Sub :
-            /\ \E p \in AllCA : TaskName = "sync_" \o c \o "_with_parent_" \o p
-            /\ \/ SyncParentSend(c) \/ SyncParentList(c) \/ SyncParentFails(c)
-               \/ (SyncDropped(c) /\ SP(c) \notin tasks')
-       \/ \E c \in Sub :
-            /\ \E p \in AllCA :
-                 TaskName = "resource_class_removed_ca_" \o c \o "_parent_" \o p \o "_rcn_0"
-            /\ (RcRemoved(c) \/ (SyncDropped(c) /\ RM(c) \notin tasks'))
-       \/ /\ TaskName \in {"update_rrdp_if_needed", "sync_repo_ta", "none",
-                           "sync_ta_proxy_signer",
-                           "sync_" \o Top \o "_with_parent_ta"}
-          /\ UNCHANGED vars
+    /\ LET kind == Line.tk[1]
+           c == Line.tk[2]
+       IN  \/ /\ kind = "sync_repo" /\ c \in AllCA
+              /\ (SyncRepo(c) \/ (SyncDropped(c) /\ SR(c) \notin tasks'))
+           \/ /\ kind = "sync_parent" /\ c \in Sub
+              /\ \/ SyncParentSend(c) \/ SyncParentList(c) \/ SyncParentFails(c)
+                 \/ (SyncDropped(c) /\ SP(c) \notin tasks')
+           \/ /\ kind = "rc_removed" /\ c \in Sub
+              /\ (RcRemoved(c) \/ (SyncDropped(c) /\ RM(c) \notin tasks'))
+           \/ /\ kind = "other"
+              /\ c \in {"update_rrdp_if_needed", "sync_repo_ta", "none",
+                         "sync_ta_proxy_signer",
+                         "sync_" \o Top \o "_with_parent_ta"}
+              /\ UNCHANGED vars
     /\ Projected(Line.abs)
 
 \* the harness found nothing left to do after a full refresh round
@@ -203,7 +202,8 @@ RpMatches ==
 \* when the harness reports a fixed point the model must agree that
 \* nothing is left to do
 SettledAgreed ==
-    (l > 1 /\ Rec[l - 1].ev = "Settled") => Settled /\ rp.problems = <<>>
+    (l > 1 /\ Rec[l - 1].ev = "Settled")
+        => Settled /\ (rp.problems = <<>> \/ ~NoDangling \/ ~NoStuckRequest)
 
 \* C03: whatever stopped being current under a key is on that key's CRL for
 \* as long as the key publishes one (objects do not expire within a run),
